@@ -88,9 +88,27 @@ def main(argv=None):
         relevant_problems = [m for m in problems if any(m.startswith(t) for t, c in contracts.by_target.items() if prop in c.props)]
         lines = []
         if relevant_problems:
+            # a function under contract disappeared or changed its signature: the obligations cannot even be generated. Like any
+            # unit that was proved on the recorded tree and is undecided now, this is a violation only if the replay search of
+            # that unit finds a failing input on the real code
             print(f'UNDECIDED property={prop}: contract targets missing or signature changed: {relevant_problems}')
-            write_evidence(prop, a.tier, seed, t0, [], [], [], status='undecided', note=str(relevant_problems))
-            return 2
+            rc = 2
+            vio = []
+            for t, c in contracts.by_target.items():
+                if prop not in c.props or not any(m.startswith(t) for m in relevant_problems):
+                    continue
+                for recipe in sorted({k.args[1].value for k in c.calls('replay')}):
+                    ob = {'name': f'{t}::undecided', 'detail': f'contract target missing or signature changed: {relevant_problems}', 'kind': 'undecided',
+                          'backend': '-', 'replay': recipe, 'counterexample': {'inputs': {}}}
+                    path, reproduced, out = run_replay(prop, ob, a.tier)
+                    if reproduced:
+                        print(f"  unit {t}: its signature changed; the replay search '{recipe}' found a failing input on the real code")
+                        print(f'VIOLATION property={prop} replay={path}')
+                        rc = 1
+                        vio.append(ob)
+                        break
+            write_evidence(prop, a.tier, seed, t0, [], [], vio, status='violated' if rc == 1 else 'undecided', note=str(relevant_problems))
+            return rc
         if not targets and not pinfo.get('scans'):
             print(f'ERROR property={prop}: no units under contract')
             return 3
